@@ -2185,7 +2185,90 @@ def rule_constfold(repo):
     return r
 
 
-RULES = [rule_intlog, rule_litwidth, rule_idxwidth, rule_optable, rule_handlers, rule_mismatch, rule_widthtable, rule_cache, rule_ir_eq, rule_slice_step, rule_dtype, rule_blockstate, rule_constfold,
+# ---------------------------------------------------------------------------
+def rule_namescope(repo):
+    r = RuleResult('R-C10-namescope', "the RTLIR generator resolves a bare name like python scoping at the use site: the open loop "
+                                      "variable first, then a known temporary; an unknown name may only be stored to; the loop variable "
+                                      "is visible exactly while the loop body is visited")
+    w = world(repo)
+    gm = w.repo.mod(BEH + 'BehavioralRTLIRGenL5Pass.py')
+    pcls = w.I.clsval(gm, gm.get_class('BehavioralRTLIRGenL5Pass'))
+    gv = w.I.find_method(pcls, 'get_rtlir_generator_class')
+    if gv is None:
+        raise AnalysisError("anchor vanished: get_rtlir_generator_class")
+    gen = w.I.call_function(gv, [Opaque('pass')], {})
+    if not isinstance(gen, ClsVal):
+        raise AnalysisError("get_rtlir_generator_class does not return a class")
+
+    def generator(loop, tmp, glob=None):
+        g = AInst(gen)
+        g.attrs.update(closure={}, globals=dict(glob or {}), loop_var_env=set(loop), tmp_var_env=set(tmp), _upblk_name='blk',
+                       blk=Opaque('blk'), component=Opaque('component'))
+        return g
+
+    def where(meth):
+        f = w.I.find_method(gen, meth)
+        if f is None:
+            raise AnalysisError(f"anchor vanished: generator {meth}")
+        return f.mod, f"{f.defcls.name}.{meth}", f.node.lineno
+    wm, wq, wl_ = where('visit_Name')
+    for sit, loop, tmp in (('the open loop variable only', {'i'}, set()), ('a known temporary only', set(), {'i'}),
+                           ('both a temporary (assigned earlier) and the open loop variable', {'i'}, {'i'}), ('neither', set(), set())):
+        for ctx, ctxn in ((ast.Load(), 'load'), (ast.Store(), 'store')):
+            g = generator(loop, tmp)
+            node = ast.Name(id='i', ctx=ctx)
+            w.evals += 1
+            try:
+                ret = w.I.call(w.I.getattr(g, 'visit_Name'), [node])
+                got = ret.cls.name if isinstance(ret, AInst) else repr(ret)
+            except Raised as e:
+                got = 'raises ' + e.what
+            want = 'LoopVar' if loop else 'TmpVar' if tmp else ('raises PyMTLSyntaxError' if ctxn == 'load' else 'TmpVar')
+            cons = f"visit_Name: name is {sit} ({ctxn})"
+            if got != want:
+                r.bad(wm, wq, cons, f"the name becomes {got}, expected {want}: `i = s.sel` (2 bits) followed by `for i in range(16): s.idx @= i` "
+                      f"types the loop index as the 2-bit temporary, the block is accepted and simulation raises at i = 4", wl_)
+            elif not loop and not tmp and ctxn == 'store' and 'i' not in g.attrs['tmp_var_env']:
+                r.bad(wm, wq, cons, "a newly created temporary is not registered: its next use is rejected as 'used before assignment'", wl_)
+            else:
+                r.ok(wm, wq, cons)
+    # a module-level constant is not a temporary
+    g = generator(set(), {'K'}, glob={'K': SymInt(5, sym='k')})
+    w.evals += 1
+    try:
+        ret = w.I.call(w.I.getattr(g, 'visit_Name'), [ast.Name(id='K', ctx=ast.Load())])
+        got = ret.cls.name if isinstance(ret, AInst) else repr(ret)
+    except Raised as e:
+        got = 'raises ' + e.what
+    (r.ok if got == 'FreeVar' else r.bad)(wm, wq, "visit_Name: name is a module global", *([] if got == 'FreeVar' else
+                                          [f"a global constant becomes {got}, expected FreeVar (its value and width come from the object)", wl_]))
+    # visit_For: the loop variable is in scope exactly while the body is visited
+    fm, fq_, fl_ = where('visit_For')
+    tree = ast.parse("for i in range( 4 ):\n  s.out @= i\n  s.out2 @= i\n").body[0]
+    g = generator(set(), set())
+    seen = []
+    g.attrs['visit'] = lambda n, g=g: seen.append((type(n).__name__, 'i' in g.attrs['loop_var_env'])) or Opaque('bir')
+    w.evals += 1
+    try:
+        ret = w.I.call(w.I.getattr(g, 'visit_For'), [tree])
+        body_vis = [v for k, v in seen if k == 'AugAssign']
+        prob = None
+        if not isinstance(ret, AInst) or ret.cls.name != 'For':
+            prob = f"does not build a bir.For ({ret!r})"
+        elif len(body_vis) != 2 or not all(body_vis):
+            prob = "the loop variable is not registered while the loop body is translated: `i` in the body is taken for a temporary / unknown name"
+        elif 'i' in g.attrs['loop_var_env']:
+            prob = "the loop variable stays registered after the loop: a later temporary `i` is typed as the (finished) loop index"
+    except Raised as e:
+        prob = f"ends with {e.what}"
+    (r.bad if prob else r.ok)(fm, fq_, "visit_For: loop variable registered exactly during the body", *([prob, fl_] if prob else []))
+    w.sync()
+    r.evaluations = w.evals
+    r.require_floor(10)
+    return r
+
+
+RULES = [rule_intlog, rule_litwidth, rule_idxwidth, rule_optable, rule_handlers, rule_mismatch, rule_widthtable, rule_cache, rule_ir_eq, rule_slice_step, rule_dtype, rule_blockstate, rule_constfold, rule_namescope,
          rule_constcache_dep, rule_sim_accepts,
          rule_sim_helpers]
 
@@ -2308,6 +2391,14 @@ MUTANTS = [
     _m('const-subscript-or-instead-of-and', GEN[0], "    idx = s.visit( node.slice )\n    if value is not None and idx is not None:", "    idx = s.visit( node.slice )\n    if value is not None or idx is not None:", 'R-C10-constfold'),
     _m('struct-identity-by-class-name', TC3, "        if lhs_type.get_name() != rhs_type.get_name():", "        if lhs_type.get_class().__name__ != rhs_type.get_class().__name__:", 'R-C10-mismatch'),
     _m('struct-eq-by-class-name', RDT, "    return isinstance(u, Struct) and s.get_full_name() == u.get_full_name()", "    return isinstance(u, Struct) and s.cls.__name__ == u.cls.__name__", 'R-C10'),
+    # eighth round: name scoping in the generator
+    _m('name-temporary-shadows-loop-variable', GEN2, "      if node.id in s.loop_var_env:\n        ret = bir.LoopVar( node.id )\n      elif node.id in s.tmp_var_env:\n        ret = bir.TmpVar( node.id, s._upblk_name )\n",
+       "      if node.id in s.tmp_var_env:\n        ret = bir.TmpVar( node.id, s._upblk_name )\n      elif node.id in s.loop_var_env:\n        ret = bir.LoopVar( node.id )\n", 'R-C10-namescope'),
+    _m('name-unknown-load-becomes-temporary', GEN2, "      elif isinstance( node.ctx, ast.Load ):\n        # trying to load", "      elif isinstance( node.ctx, ast.Store ):\n        # trying to load", 'R-C10-namescope'),
+    _m('name-new-temporary-not-registered', GEN2, "        s.tmp_var_env.add( node.id )\n", "        pass\n", 'R-C10-namescope'),
+    _m('loop-variable-never-unregistered', GEN2, "    s.loop_var_env.remove( loop_var_name )\n", "", 'R-C10-namescope'),
+    _m('loop-variable-registered-after-body', GEN2, "    s.loop_var_env.add( loop_var_name )\n    var = bir.LoopVarDecl( node.target.id )", "    var = bir.LoopVarDecl( node.target.id )", 'R-C10-namescope'),
+    _m('name-global-taken-for-temporary', GEN2, "    if (not node.id in s.closure) and (not node.id in s.globals):", "    if (not node.id in s.closure):", 'R-C10-namescope'),
     # literal width
     _m('float-log-reintroduced-L1', TC1, "      return value.bit_length()\n", "      return math.ceil(math.log2(value+1))\n", 'R-intlog'),
     _m('float-log-reintroduced-rdt', RDT, "    return value.bit_length()\n", "    return ceil(log2(value+1))\n", 'R-C10-litwidth'),
@@ -2386,6 +2477,13 @@ MUTANTS = [
 ]
 
 EQUIV = [
+    _m('name-lookup-as-nested-if', GEN2, "      if node.id in s.loop_var_env:\n        ret = bir.LoopVar( node.id )\n      elif node.id in s.tmp_var_env:\n        ret = bir.TmpVar( node.id, s._upblk_name )\n      elif isinstance",
+       "      is_loop = node.id in s.loop_var_env\n      is_tmp = not is_loop and node.id in s.tmp_var_env\n      if is_loop:\n        ret = bir.LoopVar( node.id )\n      elif is_tmp:\n        ret = bir.TmpVar( node.id, s._upblk_name )\n      elif isinstance"),
+    dict(name='name-lookup-through-chainmap', edits=[
+        dict(file=GEN2, old="import ast\n\nfrom pymtl3.passes.rtlir.errors", new="import ast\nfrom collections import ChainMap\n\nfrom pymtl3.passes.rtlir.errors", count=1),
+        dict(file=GEN2, old="      if node.id in s.loop_var_env:\n        ret = bir.LoopVar( node.id )\n      elif node.id in s.tmp_var_env:\n        ret = bir.TmpVar( node.id, s._upblk_name )\n      elif isinstance",
+             new="      kind = ChainMap( { n : 'loop' for n in s.loop_var_env }, { n : 'tmp' for n in s.tmp_var_env } ).get( node.id )\n      if kind == 'loop':\n        ret = bir.LoopVar( node.id )\n      elif kind == 'tmp':\n        ret = bir.TmpVar( node.id, s._upblk_name )\n      elif isinstance", count=1)]),
+    _m('loop-variable-discard', GEN2, "    s.loop_var_env.remove( loop_var_name )\n", "    s.loop_var_env.discard( loop_var_name )\n"),
     _m('assign-loop-by-index', TC2, "    for i, target in enumerate( node.targets ):\n      s._visit_Assign_single_target( node, target, i )", "    for i in range( len( node.targets ) ):\n      s._visit_Assign_single_target( node, node.targets[i], i )"),
     _m('const-subscript-guard-as-not-none-in', GEN[0], "    idx = s.visit( node.slice )\n    if value is not None and idx is not None:", "    idx = s.visit( node.slice )\n    if not (value is None or idx is None):"),
     _m('struct-identity-by-full-name', TC3, "        if lhs_type.get_name() != rhs_type.get_name():", "        if lhs_type.get_full_name() != rhs_type.get_full_name():"),
